@@ -62,6 +62,7 @@ func runC05(c *Ctx) {
 	ruleNoErrorSwallow(c, "C05.17", "engine")
 	ruleStatementTextUnmodified(c, "C05.18")
 	ruleValueKindTotality(c, "C05.19", func(f *Func) bool { return f.Pkg == c.W.Pkgs["engine"] && !aggregateCone(f) }, 5)
+	ruleHeaderFieldsAreCopies(c, "C05.20")
 }
 
 // aggregateCone: the functions that compute aggregates (C07's subjects); everything else in engine serves C05/C06.
